@@ -11,6 +11,7 @@ import JumanjiModel.Env.Tetris.ClearLemmas
 import JumanjiModel.Env.Tetris.StepLemmas
 import JumanjiModel.Env.Tetris.Bounds
 import JumanjiModel.Env.Tetris.EpisodeLemmas
+import JumanjiModel.Env.Tetris.SpecValid
 open Jm Tetris
 
 namespace Props.C04
@@ -44,7 +45,44 @@ theorem tetris_legal_not_punished (cfg : Cfg) (s : State) (hc : Consistent cfg s
   Tetris.legal_step cfg s hc.2.2.2.2.2.1 hr hx d h hl
 
 example : legal ⟨4, 4, 10⟩ (reset ⟨4, 4, 10⟩ 0).1 1 0 ∧ ¬ legal ⟨4, 4, 10⟩ (reset ⟨4, 4, 10⟩ 0).1 1 1 := by decide
+
+/-- (wave 3, audit) `tetris_step_agrees` speaks of `isValid`, the test inside `step`; this one is about what `step` RETURNS: in
+a consistent state, for every action of the action space and every draw, the emitted timestep is LAST exactly when the rules
+forbid the action, or no move is left for the next piece, or the time is up -/
+theorem tetris_step_last_iff_rules (cfg : Cfg) (s : State) (hc : Consistent cfg s) {rot x : Nat} (hr : rot < 4)
+    (hx : x < cfg.numCols) (d : Nat) :
+    (step cfg s (rot : Int) (x : Int) d).2.stepType = .last ↔
+      (¬ legal cfg s rot x ∨ (step cfg s (rot : Int) (x : Int) d).1.actionMask.any (fun r => r.any id) = false ∨
+        cfg.timeLimit ≤ s.stepCount + 1) := Tetris.step_last_iff_rules cfg s hc hr hx d
+
+/-- … hence, when a move is left afterwards and the time is not up, the environment treats the action as invalid (ends the
+episode) exactly when it is illegal: legal ↔ the step did not treat it as invalid -/
+theorem tetris_step_reaction (cfg : Cfg) (s : State) (hc : Consistent cfg s) {rot x : Nat} (hr : rot < 4)
+    (hx : x < cfg.numCols) (d : Nat)
+    (hmove : (step cfg s (rot : Int) (x : Int) d).1.actionMask.any (fun r => r.any id) = true)
+    (htime : s.stepCount + 1 < cfg.timeLimit) :
+    (step cfg s (rot : Int) (x : Int) d).2.stepType = .last ↔ ¬ legal cfg s rot x :=
+  Tetris.step_treated_invalid_iff cfg s hc hr hx d hmove htime
+
+-- both cases occur on the reset state of the 4 × 4 field (I piece): flat in column 0 is legal and the step is MID, flat in
+-- column 1 is illegal and the step is LAST, although moves are left and the time is not up
+example : Consistent ⟨4, 4, 10⟩ (reset ⟨4, 4, 10⟩ 0).1 ∧
+    (step ⟨4, 4, 10⟩ (reset ⟨4, 4, 10⟩ 0).1 1 0 3).2.stepType = .mid ∧
+    (step ⟨4, 4, 10⟩ (reset ⟨4, 4, 10⟩ 0).1 1 1 3).2.stepType = .last ∧
+    (step ⟨4, 4, 10⟩ (reset ⟨4, 4, 10⟩ 0).1 1 1 3).1.actionMask.any (fun r => r.any id) = true := by decide +kernel
 end Props.C04
+
+namespace Props.C03
+/-- `step` on ANY state with ANY action values and any draw returns a protocol-conform timestep: MID with discount 1 or LAST
+with discount 0, scalar reward -/
+theorem tetris_step_protocol_explicit (cfg : Cfg) (s : State) (rot x : Int) (d : Nat) :
+    StepOK none false (step cfg s rot x d).2 = true ∧
+    ((step cfg s rot x d).2.stepType = .last → (step cfg s rot x d).2.discount = [0]) := by
+  refine ⟨Tetris.step_protocol cfg s rot x d, ?_⟩
+  unfold step
+  simp only [condLast]
+  split <;> simp [termination, transition, zerosR, RShape.size]
+end Props.C03
 
 namespace Props.C05
 /-- an illegal action ends the episode with reward 0 (the piece is still dropped: the documents promise no more) -/
@@ -52,6 +90,16 @@ theorem tetris_illegal_terminates (cfg : Cfg) (s : State) (hc : Consistent cfg s
     (hr : rot < 4) (hx : x < cfg.numCols) (d : Nat) (h : ¬ legal cfg s rot x) :
     (step cfg s (rot : Int) (x : Int) d).2.stepType = .last ∧ (step cfg s (rot : Int) (x : Int) d).2.reward = [0] :=
   Tetris.illegal_step cfg s hc.2.2.2.2.2.1 hr hx d h
+
+/-- (wave 3) … with discount 0, and the score kept in the state does not change -/
+theorem tetris_illegal_no_score (cfg : Cfg) (s : State) (hc : Consistent cfg s) {rot x : Nat}
+    (hr : rot < 4) (hx : x < cfg.numCols) (d : Nat) (h : ¬ legal cfg s rot x) :
+    (step cfg s (rot : Int) (x : Int) d).1.score = s.score ∧ (step cfg s (rot : Int) (x : Int) d).2.discount = [0] := by
+  have hi := Tetris.illegal_step cfg s hc.2.2.2.2.2.1 hr hx d h
+  refine ⟨?_, ?_⟩
+  · rw [Tetris.step_score, hi.2]; simp [Rat.add_zero]
+  · have := (Props.C03.tetris_step_protocol_explicit cfg s (rot : Int) (x : Int) d).2 hi.1
+    exact this
 end Props.C05
 
 namespace Props.C07
@@ -80,6 +128,23 @@ theorem tetris_cleared_le (cfg : Cfg) (s : State) (hc : Consistent cfg s) (rot x
     (dropSpec cfg s.gridPadded s.tetrominoIndex rot x).2 ≤ 4 := Tetris.step_cleared_le cfg s hc rot x
 
 example : Consistent ⟨4, 4, 10⟩ (step ⟨4, 4, 10⟩ (reset ⟨4, 4, 10⟩ 0).1 0 0 3).1 := by decide +kernel
+
+/-- (wave 3) WHOLE EPISODES: from `reset` (every size ≥ 4 × 4, every first piece), for ALL in-spec (rotation, column) actions
+— legal or not — and ALL next-piece draws, EVERY non-terminal state of the episode (`liveStates` = the successor of every step
+whose timestep is not LAST, up to the first LAST) is consistent -/
+theorem tetris_consistent_along (cfg : Cfg) (hR : 4 ≤ cfg.numRows) (hC : 4 ≤ cfg.numCols) (d0 : Nat) (hd0 : validDraw d0)
+    (as : List (Nat × Nat × Nat)) (hin : InSpec cfg as) :
+    Consistent cfg (reset cfg d0).1 ∧ ∀ s' ∈ liveStates cfg (reset cfg d0).1 as, Consistent cfg s' :=
+  ⟨Tetris.reset_consistent cfg hR hC d0 hd0,
+   Tetris.consistent_along cfg hR hC _ (Tetris.reset_consistent cfg hR hC d0 hd0) as hin⟩
+
+/-- the same from any consistent state -/
+theorem tetris_consistent_along_from (cfg : Cfg) (hR : 4 ≤ cfg.numRows) (hC : 4 ≤ cfg.numCols) (s : State)
+    (hc : Consistent cfg s) (as : List (Nat × Nat × Nat)) (hin : InSpec cfg as) :
+    ∀ s' ∈ liveStates cfg s as, Consistent cfg s' := Tetris.consistent_along cfg hR hC s hc as hin
+
+example : (liveStates ⟨4, 4, 30⟩ (reset ⟨4, 4, 30⟩ 0).1 [(1, 0, 0), (1, 0, 0), (1, 1, 2), (0, 0, 0)]).length = 2 := by
+  decide +kernel
 end Props.C07
 
 namespace Props.C09
@@ -253,6 +318,23 @@ theorem tetris_obs_faithful (cfg : Cfg) (s : State) (rot x : Int) (d : Nat) (hd 
 
 theorem tetris_reset_obs_faithful (cfg : Cfg) (d : Nat) (hd : validDraw d) :
     (reset cfg d).2.obs = observe cfg (reset cfg d).1 := Tetris.reset_obs_faithful cfg d hd
+
+/-- (wave 3) `observe` copies the CACHED mask; on every non-terminal state of play it is the table of legal moves of the
+state the agent is in (for the piece the agent has to place), so the agent is not shown a stale mask: `reset` and every
+non-LAST step from a consistent state -/
+theorem tetris_obs_mask_is_legal (cfg : Cfg) (hR : 4 ≤ cfg.numRows) (hC : 4 ≤ cfg.numCols) (s : State)
+    (hc : Consistent cfg s) (rot x d : Nat) (hr : rot < 4) (hx : x < cfg.numCols) (hd : validDraw d)
+    (hn : (step cfg s (rot : Int) (x : Int) d).2.stepType ≠ .last) :
+    (step cfg s (rot : Int) (x : Int) d).2.obs.actionMask = legalMask cfg (step cfg s (rot : Int) (x : Int) d).1 ∧
+    (step cfg s (rot : Int) (x : Int) d).2.obs.tetromino = pieceAt d 0 ∧
+    (step cfg s (rot : Int) (x : Int) d).2.obs.stepCount = s.stepCount + 1 := by
+  have hc' := Tetris.step_consistent cfg s hc hR hC rot x d hr hx hd hn
+  rw [Tetris.obs_faithful cfg s _ _ d hd]
+  refine ⟨hc'.2.2.2.2.2.1, ?_, ?_⟩
+  · show pieceAt (step cfg s (rot : Int) (x : Int) d).1.tetrominoIndex 0 = _
+    rw [Tetris.step_index]
+  · show (step cfg s (rot : Int) (x : Int) d).1.stepCount = _
+    rw [Tetris.step_count]
 end Props.C12
 
 namespace Props.C01
@@ -270,4 +352,79 @@ theorem tetris_step_obs_in_bounds (cfg : Cfg) (s : State) (rot x : Int) (d : Nat
     (hlim : s.stepCount < cfg.timeLimit) :
     ObsInBounds (obsBounds cfg) (obsLeaves (step cfg s rot x d).2.obs) :=
   Tetris.step_obs_in_bounds cfg s rot x d hlim
+
+/-! #### (wave 3) membership in the DECLARED specs: structure, shapes, dtypes and bounds -/
+open Sp PzS PkS
+
+/-- the model's `obsSpec` / `actionSpec` / reward and discount specs ARE the specs generated from the real spec objects
+(Gen/Specs.lean) for the catalogue configuration `Tetris(num_rows=6, num_cols=5, time_limit=9)` -/
+theorem tetris_obsSpec_generated :
+    prefixed "observation_spec." (obsSpec ⟨6, 5, 9⟩) = declared "tetris-6x5" "observation_spec." ∧
+    [("action_spec", actionSpec ⟨6, 5, 9⟩)] = declared "tetris-6x5" "action_spec" ∧
+    [("reward_spec", rewardSpec)] = declared "tetris-6x5" "reward_spec" ∧
+    [("discount_spec", discountSpec)] = declared "tetris-6x5" "discount_spec" := by
+  refine ⟨by decide, by decide, by decide, by decide⟩
+
+/-- the `reset` observation (ALL sizes with at least one row and three columns — the constructor demands 4 × 4 —, every valid
+first piece) is accepted by `observation_spec.validate`: fields `grid`, `tetromino`, `action_mask`, `step_count`; shapes
+`(R, C)`, `(4, 4)`, `(4, C)`, `()`; dtypes int32, int32, bool, int32; bounds [0, 1], [0, 1], [0, 1], {0 … T} -/
+theorem tetris_reset_obs_valid (cfg : Cfg) (hR : 0 < cfg.numRows) (hC : 3 ≤ cfg.numCols) (d : Nat) (hd : validDraw d) :
+    (obsSpec cfg).valid (toNValue (reset cfg d).2.obs) = true := Tetris.reset_obs_valid cfg hR hC d hd
+
+/-- the same for the observation of EVERY `step` — any integers as action (in the action space or not, legal or not), every
+valid draw, MID or LAST — from every state whose padded grid has its shape and whose counter has not reached the limit -/
+theorem tetris_step_obs_valid (cfg : Cfg) (hR : 0 < cfg.numRows) (hC : 3 ≤ cfg.numCols) (s : State)
+    (hs : GridShaped cfg s) (hlim : s.stepCount < cfg.timeLimit) (rot x : Int) (d : Nat) (hd : validDraw d) :
+    (obsSpec cfg).valid (toNValue (step cfg s rot x d).2.obs) = true :=
+  Tetris.step_obs_valid cfg hR hC s hs hlim rot x d hd
+
+/-- the hypothesis `GridShaped` holds after `reset` and is preserved by EVERY step (also an illegal or terminal one, which
+may paint into the padding) -/
+theorem tetris_gridShaped_invariant (cfg : Cfg) :
+    (∀ d, GridShaped cfg (reset cfg d).1) ∧
+    (∀ (s : State) (rot x : Int) (d : Nat), GridShaped cfg s → GridShaped cfg (step cfg s rot x d).1) :=
+  ⟨Tetris.reset_gridShaped cfg, fun s rot x d h => Tetris.step_gridShaped cfg s h rot x d⟩
+
+/-- WHOLE EPISODES: along the rollout (`Ep.rollout` = the L1 step iterated) of ANY actions and valid draws from `reset`,
+every observation emitted by one of the first `time_limit` steps is a member of the spec; the first LAST timestep is among
+them (`tetris_rollout_ends_by_limit`: it comes at a step `k ≤ time_limit`), so this covers every observation of every episode
+up to and including the terminal one -/
+theorem tetris_rollout_obs_valid (cfg : Cfg) (hR : 0 < cfg.numRows) (hC : 3 ≤ cfg.numCols) (d0 : Nat)
+    (as : List (Int × Int × Nat)) (has : ∀ a ∈ as, validDraw a.2.2) (j : Nat) (hj : j < cfg.timeLimit)
+    (e : State × TimeStep Obs)
+    (he : (Ep.rollout (fun s (a : Int × Int × Nat) => step cfg s a.1 a.2.1 a.2.2) (reset cfg d0).1 as)[j]? = some e) :
+    (obsSpec cfg).valid (toNValue e.2.obs) = true := Tetris.rollout_obs_valid cfg hR hC d0 as has j hj e he
+
+/-- what membership means (so the theorems above are not hollow): `validate` accepts an observation ONLY IF grid, piece and
+mask have the declared shapes, all cells are 0/1 and the counter is at most the time limit -/
+theorem tetris_obs_valid_only (cfg : Cfg) (o : Obs) (h : (obsSpec cfg).valid (toNValue o) = true) :
+    shape2 o.grid = [cfg.numRows, cfg.numCols] ∧ (∀ v ∈ o.grid.flatten, v ≤ 1) ∧
+    shape2 o.tetromino = [4, 4] ∧ (∀ v ∈ o.tetromino.flatten, v ≤ 1) ∧
+    shape2 o.actionMask = [4, cfg.numCols] ∧ o.stepCount ≤ cfg.timeLimit := Tetris.obs_valid_only cfg o h
+
+example : (obsSpec ⟨4, 4, 10⟩).valid (toNValue (reset ⟨4, 4, 10⟩ 0).2.obs) = true ∧
+    (obsSpec ⟨4, 4, 10⟩).valid (toNValue { (reset ⟨4, 4, 10⟩ 0).2.obs with stepCount := 11 }) = false ∧
+    (obsSpec ⟨4, 5, 10⟩).valid (toNValue (reset ⟨4, 4, 10⟩ 0).2.obs) = false := by decide +kernel
+
+/-- reward and discount of every `step` (ALL states, ALL action values, all draws) and of `reset` are accepted by
+`reward_spec` (Array((), float)) and `discount_spec` (BoundedArray((), float, 0, 1)) -/
+theorem tetris_reward_discount_valid (cfg : Cfg) (s : State) (rot x : Int) (d d0 : Nat) :
+    rewardSpec.valid (scalarArr (step cfg s rot x d).2.reward) = true ∧
+    discountSpec.valid (scalarArr (step cfg s rot x d).2.discount) = true ∧
+    rewardSpec.valid (scalarArr (reset cfg d0).2.reward) = true ∧
+    discountSpec.valid (scalarArr (reset cfg d0).2.discount) = true :=
+  ⟨(Tetris.step_reward_discount_valid cfg s rot x d).1, (Tetris.step_reward_discount_valid cfg s rot x d).2,
+   (Tetris.reset_reward_discount_valid cfg d0).1, (Tetris.reset_reward_discount_valid cfg d0).2⟩
+
+/-- `action_spec.generate_value()` = (0, 0): the action spec is well-formed, the generated value is a member, and `step`
+answers it in every state with a protocol-conform timestep; membership in `action_spec` is "rotation < 4, column < num_cols" -/
+theorem tetris_accepts_generate_value (cfg : Cfg) (hC : 0 < cfg.numCols) (hbig : cfg.numCols ≤ 2147483648) (s : State)
+    (d : Nat) :
+    (actionSpec cfg).WF = true ∧ (actionSpec cfg).valid (actionSpec cfg).generate = true ∧
+    (actionSpec cfg).generate = actionArr 0 0 ∧ StepOK none false (step cfg s 0 0 d).2 = true :=
+  Tetris.accepts_generate_value cfg hC hbig s d
+
+theorem tetris_action_spec_iff (cfg : Cfg) (rot x : Nat) :
+    (actionSpec cfg).valid (actionArr (rot : Int) (x : Int)) = true ↔ rot < 4 ∧ x < cfg.numCols :=
+  Tetris.actionSpec_valid_iff cfg rot x
 end Props.C01
